@@ -1038,7 +1038,9 @@ func (x *Exec) forStmt(n *ast.ForStmt, st *State, label string) flow {
 			sv := x.st
 			x.st = s.clone()
 			x.inSpec++
+			nObl := len(x.obls)
 			c := x.expr(x.env(), n.Cond)
+			x.obls = x.obls[:nObl] // the condition's own safety obligations belong to its real evaluation at the loop head
 			x.inSpec--
 			x.st = sv
 			return c.S
